@@ -1,6 +1,7 @@
 import N0Verif.Proofs.Compare
 import N0Verif.Proofs.CompareFlags
 import N0Verif.Proofs.CompareKeyed
+import N0Verif.Proofs.CompareDefaultTight
 /-!
 # C07 — the compare verdict is exact
 
@@ -43,6 +44,59 @@ theorem C07_default_exact_partial (fl : Flags) (a b : Val) (ha : isN0 a = true) 
     (hr : RootPair a b) (hua : uniqKeys a = true) (hub : uniqKeys b = true) (hc : NoStrCollision a b) :
     ∃ r, compareTop (Cfg.default fl false) a b = .ok r ∧ (r.diffs = 0 ↔ eqv a b) :=
   default_exact_uniq fl a b ha hb hr hua hub hc
+
+/-- **C07 (default comparison, the collision hypothesis made local and one-sided).**  The same equivalence
+under much less than `NoStrCollision`:
+* `DtLocalOK b` — in every list of the RIGHT operand (at every depth) two items with the same key (`str()` of
+  a non-record item, `''` for every record) are both records or identical.  This is exactly the class of
+  finding C07-b (`[1, '1']`, `['', {}]`, `[None, 'None']` inside one list); `str()` collisions between items of
+  two different lists — `[1]` against `['1']` — are allowed (they are reported as a difference, rightly);
+  nothing is asked of the lists of the left operand;
+* `DtNestedInj a b` — `str()` determines the *lists nested directly in lists* (they are keyed by `str()`,
+  finding C07-c territory; vacuous when no list is an item of a list; true of `repr` on genuine Python values —
+  needed in the model only because floats are opaque lexemes, `C07_nested_needed_cex`). -/
+theorem C07_default_exact_local (fl : Flags) (a b : Val) (ha : isN0 a = true) (hb : isN0 b = true)
+    (hr : RootPair a b) (hua : uniqKeys a = true) (hub : uniqKeys b = true)
+    (hlb : DtLocalOK b) (hn : DtNestedInj a b) :
+    ∃ r, compareTop (Cfg.default fl false) a b = .ok r ∧ (r.diffs = 0 ↔ eqv a b) :=
+  dt_default_exact_right fl a b ha hb hr hua hub hlb hn
+
+/-- the local hypotheses follow from `NoStrCollision` (so `C07_default_exact_partial` is a special case) … -/
+theorem C07_local_of_noStrCollision (a b : Val) (hc : NoStrCollision a b) :
+    DtLocalOK a ∧ DtLocalOK b ∧ DtNestedInj a b :=
+  dt_of_noStrCollision a b hc
+
+/-- … and are strictly weaker: `{'a': [1, {'k': None}]}` against `{'a': ['1', {'k': None}]}` -/
+theorem C07_local_strictly_weaker :
+    ¬ NoStrCollision dtExA dtExB ∧ DtLocalOK dtExA ∧ DtLocalOK dtExB ∧ DtNestedInj dtExA dtExB :=
+  ⟨dtEx_not_noStrCollision, dtEx_local⟩
+
+/-- **the excluded class is tight (1).**  For ANY two distinct leaves (scalars or `None`) with the same
+`str()`, the lists `[x, y]` and `[y, x]` are equal up to order and the default comparison reports two
+differences: every member of the class of C07-b gives a wrong verdict. -/
+theorem C07_collision_class_tight (fl : Flags) (x y : Val) (hx : DtLeaf x) (hy : DtLeaf y) (hne : x ≠ y)
+    (hs : pyStr x = pyStr y) :
+    (∃ r, compareTop (Cfg.default fl false) (.list .n0 [x, y]) (.list .n0 [y, x]) = .ok r ∧ r.diffs = 2) ∧
+      eqv (.list .n0 [x, y]) (.list .n0 [y, x]) :=
+  dt_tight fl x y hx hy hne hs
+
+/-- **tight (2).**  For ANY leaf with an empty `str()` and any record `R` (equal to itself): `[x, R]` against
+`[R, x]`. -/
+theorem C07_collision_class_tight_rec (fl : Flags) (x : Val) (c : Cls) (kvs : List (Str × Val)) (hx : DtLeaf x)
+    (hs : pyStr x = []) (hR : eqv (.dict c kvs) (.dict c kvs)) :
+    (∃ r, compareTop (Cfg.default fl false) (.list .n0 [x, .dict c kvs]) (.list .n0 [.dict c kvs, x]) = .ok r ∧
+        r.diffs = 2) ∧
+      eqv (.list .n0 [x, .dict c kvs]) (.list .n0 [.dict c kvs, x]) :=
+  dt_tight_rec fl x c kvs hx hs hR
+
+/-- the hypothesis on nested lists cannot be dropped in the model: two non-identical inner lists with the same
+`str()` (a float lexeme `1, 1` makes `repr` ambiguous), free of local collisions, compared equal by the code,
+while the outer lists are not equal up to order -/
+theorem C07_nested_needed_cex :
+    (compareTop (Cfg.default Flags.init false) dtNestA dtNestB).map Res.diffs = .ok 0 ∧ ¬ eqv dtNestA dtNestB ∧
+      DtLocalOK dtNestA ∧ DtLocalOK dtNestB ∧ isN0 dtNestA = true ∧ isN0 dtNestB = true ∧
+      uniqKeys dtNestA = true ∧ uniqKeys dtNestB = true ∧ ¬ DtNestedInj dtNestA dtNestB :=
+  dt_nested_needed_cex
 
 /-- the full-strength statement (no collision hypothesis); refuted on the pinned tree by
 `C07_collision_cex`, i.e. a finding, not a gap -/
@@ -139,5 +193,17 @@ example : NoStrCollision exP exP' := by
 example : isN0 exP = true ∧ isN0 exP' = true ∧ uniqKeys exP = true ∧ uniqKeys exP' = true := by decide
 example : (compareTop (Cfg.default Flags.init false) exP exP').map Res.diffs = .ok 0 := by decide
 example : (compareTop (Cfg.default Flags.init true) exP exP').map Res.diffs = .ok 4 := by decide
+
+/-- non-vacuity of `C07_default_exact_local`: a cross-list collision (`1` against `'1'`), one line, not `eqv` -/
+example : isN0 dtExA = true ∧ isN0 dtExB = true ∧ uniqKeys dtExA = true ∧ uniqKeys dtExB = true := by decide
+example : RootPair dtExA dtExB := by simp [RootPair, dtExA, dtExB]
+example : (compareTop (Cfg.default Flags.init false) dtExA dtExB).map Res.diffs = .ok 1 := by decide
+/-- non-vacuity of the tightness theorems: `1`/`'1'`, `None`/`'None'`, `''` next to `{}` -/
+example : DtLeaf (.int 1) ∧ DtLeaf (.str ['1']) ∧ Val.int 1 ≠ .str ['1'] ∧ pyStr (.int 1) = pyStr (.str ['1']) := by
+  refine ⟨Or.inl rfl, Or.inl rfl, by decide, by decide⟩
+example : DtLeaf .none ∧ DtLeaf (.str ['N', 'o', 'n', 'e']) ∧ pyStr .none = pyStr (.str ['N', 'o', 'n', 'e']) := by
+  refine ⟨Or.inr rfl, Or.inl rfl, by decide⟩
+example : DtLeaf (.str []) ∧ pyStr (.str []) = [] ∧ eqv (.dict .n0 []) (.dict .n0 []) := by
+  refine ⟨Or.inl rfl, rfl, by simp [eqv, eqvK]⟩
 
 end N0.C07
